@@ -1097,27 +1097,34 @@ const COND_PIECES: &[&str] = &[
     "A", "B", "C", "A", "B", "and", "or", "not", "and", "or", "not", "(", ")", "(", ")", "all(", "of(", "int(", "flt(",
     "str(", "string(", "not(", ",", "1", "0", "2", "1.5", "==", "<", "<=", ">", ">=", "=", "f", "g",
     "android", "order", "nothing", "allow", "offline", "notable", "orbit", "andA", "Aand", "nota", "ora",
+    "not_admin", "or_else", "and_more", "or.x", "all_of", "not#1", "of[0]", "and.or", "int_f", "not.not", "all(not_admin)", "of(or_else, 1)",
     "-", "-1", ".", "..", "1.2.3", "1.", ".5", "99999999999999999999", "9223372036854775807", "#x", "A[0]", "A.B",
     "_", "all", "of", "int", "all(A)", "of(B, 1)", "of(B,0)", "Z", "all(Z)", "of(Z, 1)", "not(Z)", "int(Z)", "int(f)", "flt(g)", "str(f)", "int(f) == 1", "flt(g) < 1.5",
     "str(f) == str(g)", "int(f) >= int(g)",
 ];
 const COND_ODD: &[&str] = &["é", "É1", "😀", "&", "|", "\t", "\u{b}", "\u{a0}", "²", "٣", "Ａ", "ß", "!", "\"", "'", "%", "{", "}", "~", "\n"];
 
+/// identifier names of the condition generators: words that begin with keyword letters, and
+/// names in which the keyword letters are followed by the OTHER identifier characters (_ . # [ ])
+const COND_NAMES: &[&str] = &["A", "B", "C", "android", "order", "nothing", "allow", "offline", "notable", "orbit",
+                              "not_admin", "or_else", "and_more", "or.x", "all_of", "not#1", "of[0]", "and.or", "int_f", "not.not"];
+/// the field an atom identifier tests: `f` + the letters and digits of its name
+fn atom_field(n: &str) -> String {
+    format!("f{}", n.chars().filter(|c| c.is_ascii_alphanumeric()).collect::<String>())
+}
 fn atom_ids() -> J {
-    let atom = |n: &str| json!([cps(n), {"t":"map","es":[{"m":"none","c":0,"f":cps(&format!("f{}", n)),"v":{"t":"pat","k":"exact","ic":false,"a":cps("x")}}]}]);
-    json!([atom("A"), atom("B"), atom("C"), atom("android"), atom("order"), atom("nothing"), atom("allow"),
-           atom("offline"), atom("notable"), atom("orbit")])
+    let atom = |n: &str| json!([cps(n), {"t":"map","es":[{"m":"none","c":0,"f":cps(&atom_field(n)),"v":{"t":"pat","k":"exact","ic":false,"a":cps("x")}}]}]);
+    J::Array(COND_NAMES.iter().map(|n| atom(n)).collect())
 }
 
 fn atom_docs(g: &mut G) -> Vec<J> {
-    let names = ["A", "B", "C", "android", "order", "nothing", "allow", "offline", "notable", "orbit"];
     let mut docs = vec![];
     for _ in 0..5 {
         let mut kv = vec![];
-        for n in names {
+        for n in COND_NAMES {
             match g.r.below(3) {
-                0 => kv.push((format!("f{}", n), s_node("x"))),
-                1 => kv.push((format!("f{}", n), s_node("y"))),
+                0 => kv.push((atom_field(n), s_node("x"))),
+                1 => kv.push((atom_field(n), s_node("y"))),
                 _ => {}
             }
         }
@@ -1487,16 +1494,16 @@ pub fn permute_src(g: &mut G, src: &J) -> J {
 /// C05: a random condition tree rendered to TEXT with random redundant parentheses and extra
 /// spaces; identifiers include words that begin with keyword letters
 fn cond_tree(g: &mut G, depth: usize) -> J {
-    let names = ["A", "B", "C", "android", "order", "nothing", "allow", "offline", "notable", "orbit"];
+    let names = COND_NAMES;
     if depth == 0 || g.r.chance(1, 4) {
         return match g.r.below(12) {
-            0 => json!({"t":"all","n":cps(*g.r.pick(&names))}),
-            1 => json!({"t":"of","n":cps(*g.r.pick(&names)),"c":g.r.below(3)}),
+            0 => json!({"t":"all","n":cps(*g.r.pick(names))}),
+            1 => json!({"t":"of","n":cps(*g.r.pick(names)),"c":g.r.below(3)}),
             2 => json!({"t":"cmp","op":*g.r.pick(&["eq","gt","ge","lt","le"]),
                         "l":{"t":"cast","k":"int","f":cps("f")},"r":{"t":"const","n":int_node(&format!("{}", g.r.below(3)))}}),
             3 => json!({"t":"cmp","op":*g.r.pick(&["eq","gt","lt"]),
                         "l":{"t":"const","n":flt_node("1.5")},"r":{"t":"cast","k":"flt","f":cps("g")}}),
-            _ => json!({"t":"id","n":cps(*g.r.pick(&names))}),
+            _ => json!({"t":"id","n":cps(*g.r.pick(names))}),
         };
     }
     let t = match g.r.below(10) {
